@@ -174,6 +174,8 @@ pub fn prop() -> HistProp {
     w.withdraw = 2;
     // the pauser edits the whitelist in between (it exempts from caps, not from this rule)
     w.whitelist = 3;
+    // the pauser role changes hands: to a trading account and back (holding a role is not being whitelisted)
+    w.handover = 2;
     HistProp {
         id: "C16",
         level: "exploration",
